@@ -31,6 +31,7 @@ inductive RowV where
   | mb (r : MailboxRow)
   | mbs (r : MbSide)
   | msg (r : Message)
+  | app (a : String)            -- a row of `SELECT DISTINCT app_id FROM …`
   deriving Repr, DecidableEq
 
 /-- the dict: column name -> value -/
@@ -40,6 +41,7 @@ def RowV.toRow : RowV → Row
   | .mb r => r.toRow
   | .mbs r => r.toRow
   | .msg r => r.toRow
+  | .app a => [("app_id", .text a)]
 
 inductive SV where
   | none
@@ -53,6 +55,8 @@ inductive SV where
   | usage (fields : List (String × PySum.SV))   -- a `Usage(started=…, …)` namedtuple
   | cv (impl version : Option String)           -- the `client_version` pair of a `bind`
   | msgs (l : List (String × Val × Val × Int × Val))   -- a list of SidedMessage (side, phase, body, server_rx, msg_id)
+  | strs (l : List String)                      -- a Python set of strings, as the list of what was added (duplicates kept)
+  | appRef (a : String)                         -- the AppNamespace of app `a` (`self.get_app(a)`)
   deriving Repr, DecidableEq
 
 def SV.ofCell : Cell → SV
@@ -74,6 +78,8 @@ def SV.toCell : SV → Cell
   | .usage _ => .null
   | .cv .. => .null
   | .msgs _ => .null
+  | .strs _ => .null
+  | .appRef _ => .null
 
 inductive XE where
   | none_ | true_ | false_
@@ -85,6 +91,8 @@ inductive XE where
   | mul (a b : XE)
   /-- `sum(app.count_listeners() for app in self._apps.values())` (Server.dump_stats): the subscribed connections -/
   | listenerCount
+  /-- `self.get_app(e)`: the namespace of that app (the registry of namespaces is Reg.lean's) -/
+  | appObj (e : XE)
   /-- `SidedMessage(side=…, phase=…, body=…, server_rx=…, msg_id=…)` -/
   | mkMsg (side phase body rx id : XE)
   | floordiv (a b : XE)
@@ -112,6 +120,12 @@ inductive XS where
   | call (into : Option String) (meth : String) (target : Option XE) (args : List XE)
   /-- `for v in X.execute(stmt, args).fetchall(): body` -/
   | forExec (v : String) (stmt : String) (args : List XE) (body : List XS)
+  /-- `v = set()` -/
+  | setNew (v : String)
+  /-- `v.add(e)` -/
+  | setAdd (v : String) (e : XE)
+  /-- `for v in sorted(self.<meth>(args)): body` over a set of strings: distinct elements, in `≤` order -/
+  | forSortedCall (v : String) (meth : String) (args : List XE) (body : List XS)
   /-- `v = []` -/
   | listNew (v : String)
   /-- `v.append(e)` -/
@@ -130,6 +144,7 @@ def XS.stmts : XS → List String
   | .exec _ _ n _ => [n]
   | .if_ _ t e => XS.stmtsL t ++ XS.stmtsL e
   | .forExec _ n _ b => n :: XS.stmtsL b
+  | .forSortedCall _ _ _ b => XS.stmtsL b
   | _ => []
 def XS.stmtsL : List XS → List String
   | [] => []
@@ -142,6 +157,7 @@ def XS.calls : XS → List String
   | .call _ m _ _ => [m]
   | .if_ _ t e => XS.callsL t ++ XS.callsL e
   | .forExec _ _ _ b => XS.callsL b
+  | .forSortedCall _ m _ b => m :: XS.callsL b
   | _ => []
 def XS.callsL : List XS → List String
   | [] => []
@@ -176,6 +192,8 @@ def truthy : SV → Bool
   | .usage _ => true
   | .cv .. => true
   | .msgs l => !l.isEmpty
+  | .strs l => !l.isEmpty
+  | .appRef _ => true
 
 /-- a stored scalar (NULL / text / integer) read back from a row -/
 def svVal : SV → Option Val
@@ -230,6 +248,7 @@ def eval (ctx : Ctx) (s : Sys) (env : Env) : XE → SV
     | .cv impl version => if i = 0 then optStrSV impl else if i = 1 then optStrSV version else .none
     | _ => .none)
   | .listenerCount => .int ((s.conns.filter (·.listening)).length : Nat)
+  | .appObj e => (match eval ctx s env e with | .str a => .appRef a | _ => .none)
   | .mkMsg side phase body rx id =>
     (match eval ctx s env side, svVal (eval ctx s env phase), svVal (eval ctx s env body), eval ctx s env rx,
         svVal (eval ctx s env id) with
@@ -289,6 +308,12 @@ def getMessagesStmt (s : Sys) (args : List SV) : ExecRes :=
   match args with
   | [.str app, .str mb] =>
     .ok s (.rows (((s.db.messagesOf app mb).mergeSort (fun a b => decide (a.rx ≤ b.rx))).map .msg))
+  | _ => .raised s "TypeError"
+
+/-- `SELECT DISTINCT app_id FROM <table>` (`col` = that table's app_id column) -/
+def allAppsStmt (s : Sys) (col : List String) (args : List SV) : ExecRes :=
+  match args with
+  | [] => .ok s (.rows (col.eraseDups.map .app))
   | _ => .raised s "TypeError"
 
 /-- `DELETE FROM current` -/
@@ -423,6 +448,9 @@ def stmtSem (s : Sys) (stmt : String) (args : List SV) : ExecRes :=
      | _ => .raised s "TypeError")
   else if stmt = "AppNamespace_log_client_version__insert_client_versions_0" then logClientStmt s args
   else if stmt = "Mailbox_get_messages__select_messages_0" then getMessagesStmt s args
+  else if stmt = "Server_get_all_apps__select_nameplates_0" then allAppsStmt s (s.db.nameplates.map (·.app)) args
+  else if stmt = "Server_get_all_apps__select_mailboxes_0" then allAppsStmt s (s.db.mailboxes.map (·.app)) args
+  else if stmt = "Server_get_all_apps__select_messages_0" then allAppsStmt s (s.db.messages.map (·.app)) args
   else if stmt = "Server_dump_stats__delete_current_0" then dumpDeleteStmt s args
   else if stmt = "Server_dump_stats__insert_current_0" then dumpInsertStmt s args
   else .raised s "NotInTable"
@@ -457,6 +485,7 @@ abbrev Callee := String → Ctx → List SV → Sys → ExecRes
 def calleeCtx (ctx : Ctx) (target : Option SV) : Ctx :=
   match target with
   | some (.str m) => { ctx with mailbox := m }
+  | some (.appRef a) => { ctx with app := a }
   | _ => ctx
 
 /-- one iteration of a `for` loop (`run` = the loop body): an exception or a `return` ends the loop -/
@@ -464,6 +493,14 @@ def loopStepWith (run : St → Res) (v : String) (acc : Res) (r : RowV) : Res :=
   match acc with
   | .normal st' => run ⟨st'.s, setVar st'.env v (.row r)⟩
   | other => other
+
+def loopStepStr (run : St → Res) (v : String) (acc : Res) (a : String) : Res :=
+  match acc with
+  | .normal st' => run ⟨st'.s, setVar st'.env v (.str a)⟩
+  | other => other
+
+/-- the elements of a set of strings in the order `sorted()` gives -/
+def sortedSet (l : List String) : List String := l.eraseDups.mergeSort (fun a b => decide (a ≤ b))
 
 mutual
 def execS (callee : Callee) (ctx : Ctx) : XS → St → Res
@@ -481,6 +518,16 @@ def execS (callee : Callee) (ctx : Ctx) : XS → St → Res
     (match stmtSem st.s stmt (args.map (eval ctx st.s st.env)) with
      | .ok s (.rows l) =>
        l.foldl (loopStepWith (execL callee ctx body) v) (.normal ⟨s, st.env⟩)
+     | .ok s _ => .exc s "TypeError"
+     | .raised s cls => .exc s cls)
+  | .setNew v, st => .normal ⟨st.s, setVar st.env v (.strs [])⟩
+  | .setAdd v e, st =>
+    (match (st.env.lookup v).getD .none, eval ctx st.s st.env e with
+     | .strs l, .str a => .normal ⟨st.s, setVar st.env v (.strs (l ++ [a]))⟩
+     | _, _ => .exc st.s "TypeError")
+  | .forSortedCall v meth args body, st =>
+    (match callee meth ctx (args.map (eval ctx st.s st.env)) st.s with
+     | .ok s (.strs l) => (sortedSet l).foldl (loopStepStr (execL callee ctx body) v) (.normal ⟨s, st.env⟩)
      | .ok s _ => .exc s "TypeError"
      | .raised s cls => .exc s cls)
   | .listNew v, st => .normal ⟨st.s, setVar st.env v (.msgs [])⟩
